@@ -537,6 +537,27 @@ mut("txn: rollback restores pairs that were never applied (revert of fix F20, se
 twin("txn: rollback guard written the other way round", ["R-TXN"],
      [(MU, "            if new_value.modeling_obj_container is not None and previous_value.modeling_obj_container is None:",
        "            if previous_value.modeling_obj_container is None and new_value.modeling_obj_container is not None:")])
+twin("member: back links filtered by system membership (candidate repair of F25)", ["R-MEMBER"],
+     [("core/usage/usage_journey.py", """    def usage_patterns(self):
+        return self.modeling_obj_containers
+""", """    def usage_patterns(self):
+        return [usage_pattern for usage_pattern in self.modeling_obj_containers if usage_pattern.systems]
+"""), ("core/hardware/network.py", """    def usage_patterns(self):
+        return self.modeling_obj_containers
+""", """    def usage_patterns(self):
+        return [usage_pattern for usage_pattern in self.modeling_obj_containers if usage_pattern.systems]
+""")])
+mut("member: a country's patterns aggregated by a rule from the raw back links", ["R-MEMBER"],
+    [("core/usage/usage_pattern.py", """    def update_energy_footprint(self):
+""", """    def update_energy_footprint(self):
+        nb_of_patterns_in_my_country = len([up for up in self.country.usage_patterns])
+""")], ["Country.usage_patterns"])
+mut("spread: daily volume divided by len(hours) (revert of fix F26)", ["R-SPREAD"],
+    [("builders/time_builders.py", "    volume_per_hour = daily_volume / len(set(hours))", "    volume_per_hour = daily_volume / len(hours)")],
+    ["divides by len(hours)"])
+twin("spread: hours deduplicated before the division", ["R-SPREAD", "R-NARROW", "R-THREAD"],
+    [("builders/time_builders.py", "    volume_per_hour = daily_volume / len(set(hours))",
+      "    hours = sorted(set(hours))\n    volume_per_hour = daily_volume / len(hours)")])
 mut("noop: hourly == raises on another length (revert of fix F23)", ["R-NOOP"],
     [(EO, """            if len(self.value) != len(other.value):
                 return False
